@@ -20,6 +20,10 @@ Streams (model `Lint.lintScript` vs `model.lint_script`, exact list equality of 
   lint-scale       SCALE axis n = 0 .. 300 (thorough: .. 1001) on the number of labels / jumps / redefinitions / pointless statements /
                    variables / parameters / functions (and so of warnings) of one model, each ending in a tail whose exact-kind
                    warnings come last; names numbered in ASCII and non-ASCII digit styles
+  lint-lazy-operands  ONE expression statement built from the lazy constructs (if with 0-5 operands, &&, ||, one nested in every operand
+                   of another) x the operand position(s) holding a call x kind of call x expression context x scope, executed under
+                   every truth assignment of its call-free tests / left operands (each operand position is the evaluated one in
+                   some pass of the run); tests as variables and as literals of every spelling
   lint-shipped     every shipped include/*.bare
   lint-nested      jump-level models with function statements nested in function bodies (known finding F19)
   lint-optional-members  every presence combination of the schema's optional members (flag without args, flags present and false,
@@ -2248,6 +2252,235 @@ def pointless_shape_cases(depth, leaves):
                                                    {'expr': {'expr': {'function': {'name': 'g', 'args': []}}}}]}
 
 
+# ---- the LAZY constructs: if(...) with 0-5 operands, && and ||, with a call at EVERY operand position ---------------------------
+#
+# The runtime evaluates `if(test, a, b, ...)` in place: the test, then operand 1 OR operand 2; operands from index 3 on never.
+# `l && r` / `l || r` evaluate r only for a truthy / falsy l.  Which operand of such a construct runs is decided by the VALUES of a
+# run, so 'this statement is pointless' is justified only if no operand that SOME run evaluates holds a call.  The other streams
+# put calls into lazy constructs at random and run every script under one set of globals: a call in the false-value operand was
+# seldom alone there and the test in front of it was seldom false.  Here the position of the call is the generated dimension:
+# every frame (if with 0..5 operands, &&, ||, and one frame nested in every operand of another) x every operand position holding
+# the only call (and none, all, thorough: every subset) x the kind of call x the expression context of the frame x the scope, and
+# the ONE expression statement is executed under every truth assignment of the call-free tests / left operands (the values come
+# in as parameters of the enclosing function or from a list the top-level loop walks), so each operand position is the evaluated
+# one in some pass of the run.  The call-free value operands are chosen so that a frame is truthy exactly when its test / left
+# operand is (if: truthy true-value, falsy false-value; &&: truthy right; ||: falsy right): a frame nested in a test position passes
+# both truth values on.  Judged by the delete-and-run oracle (semantic:pointless) - the Lean mirror says 'a statement with a call is
+# never reported', which is stricter than the property (a call in a never-evaluated operand may be reported).
+# ---------------------------------------------------------------------------------------------------------------------
+
+LAZY_WRAPS = ['bare', 'group', 'not', 'neg', 'plus-left', 'plus-right', 'eq-null', 'not-group', 'call-arg']
+LAZY_KINDS = ['script', 'fnvar', 'lib-log', 'lib-set', 'lib-push', 'undefined']
+LAZY_TRUTHY = [('true', {'variable': 'true'}), ('1', {'number': 1.0}), ("'a'", {'string': 'a'})]
+LAZY_FALSY = [('false', {'variable': 'false'}), ('0', {'number': 0.0}), ("''", {'string': ''}), ('null', {'variable': 'null'})]
+LAZY_LITS = ([('t', e) for _, e in LAZY_TRUTHY] + [('t', {'string': '0'}), ('t', {'number': -1.0}), ('t', {'number': 0.5}), ('t', {'string': ' '})] +
+             [('f', e) for _, e in LAZY_FALSY] + [('f', {'variable': 'zzUnset'})])     # literal tests (value_boolean: '0' and ' ' are true)
+LAZY_HEAD = ['function emit(tag, v):', "    systemLog('emit ' + tag)", "    systemGlobalSet('count', systemGlobalGet('count', 0) + 1)",
+             '    return v', 'endfunction', 'fv = emit', 'n = 3']
+LAZY_INFO = {}      # case id -> {'evaluated': bool, 'roles': [...]}  (filled by lazy_cases, read by lazy_tags)
+
+
+def _lazy_base():
+    return ([('if%d' % k, ['if'] + [None] * k) for k in range(6)] + [('and', ['&&', None, None]), ('or', ['||', None, None])])
+
+
+def lazy_templates(depth):
+    """[(id, template)]; a template is ['if', operand...] / ['&&', left, right] / ['||', left, right], an operand is None (a slot) or a
+    template."""
+    out = list(_lazy_base())
+    if depth >= 2:
+        for oid, outer in _lazy_base():
+            for pos in range(1, len(outer)):
+                for iid, inner in _lazy_base():
+                    t = list(outer)
+                    t[pos] = inner
+                    out.append((f'{oid}.{pos - 1}-{iid}', t))
+    return out
+
+
+def lazy_slots(t, live=True):
+    """roles of the slots of a template in left-to-right order: test / true-value / false-value / never (if operand 3+) / left /
+    and-right / or-right; a slot below a never-evaluated operand is 'never'"""
+    out = []
+    for pos, child in enumerate(t[1:]):
+        if t[0] == 'if':
+            role = ['test', 'true-value', 'false-value'][pos] if pos < 3 else 'never'
+        else:
+            role = 'left' if pos == 0 else ('and-right' if t[0] == '&&' else 'or-right')
+        ok = live and role != 'never'
+        if child is None:
+            out.append(role if ok else 'never')
+        else:
+            out.extend(lazy_slots(child, ok))
+    return out
+
+
+def lazy_call(kind, tag, v):
+    if kind in ('script', 'fnvar'):
+        return {'function': {'name': 'emit' if kind == 'script' else 'fv', 'args': [{'string': tag}, v]}}
+    if kind == 'lib-log':
+        return {'function': {'name': 'systemLog', 'args': [{'string': 'log ' + tag}]}}
+    if kind == 'lib-set':
+        return {'function': {'name': 'systemGlobalSet', 'args': [{'string': 'gs'}, v]}}
+    if kind == 'lib-push':
+        return {'function': {'name': 'arrayPush', 'args': [{'variable': 'garr'}, {'string': tag}]}}
+    return {'function': {'name': 'lazyNope', 'args': [v]}}
+
+
+def lazy_build(t, calls, kind, lits=None):
+    """template -> (expression, names of the control variables it reads).  Slot i holds a call iff i in calls; a call-free test / left
+    slot is the control variable c<j> (or the literal lits[j]), a call of a script function there passes c<j> through."""
+    state = {'slot': 0, 'ctl': 0}
+
+    def walk(node, role):
+        if node is None:
+            ix = state['slot']
+            state['slot'] += 1
+            if role in ('test', 'left'):
+                j = state['ctl']
+                state['ctl'] += 1
+                v = fast_copy(lits[j]) if lits is not None else {'variable': f'c{j}'}
+            elif role in ('true-value', 'and-right'):
+                v = {'number': 1.0}
+            elif role == 'false-value':
+                v = {'variable': 'null'}
+            elif role == 'or-right':
+                v = {'number': 0.0}
+            else:
+                v = {'variable': 'n'}
+            return lazy_call(kind, f's{ix}', v) if ix in calls else v
+        if node[0] == 'if':
+            roles = ['test', 'true-value', 'false-value']
+            return {'function': {'name': 'if', 'args': [walk(c, roles[p] if p < 3 else 'never') for p, c in enumerate(node[1:])]}}
+        return {'binary': {'op': node[0], 'left': walk(node[1], 'left'), 'right': walk(node[2], 'and-right' if node[0] == '&&' else 'or-right')}}
+    expr = walk(t, 'top')
+    text = json.dumps(expr)
+    return expr, [f'c{j}' for j in range(state['ctl']) if f'"variable": "c{j}"' in text], state['ctl']
+
+
+def lazy_wrap(e, wrap):
+    if wrap == 'group':
+        return {'group': e}
+    if wrap in ('not', 'neg'):
+        return {'unary': {'op': '!' if wrap == 'not' else '-', 'expr': e}}
+    if wrap == 'not-group':
+        return {'unary': {'op': '!', 'expr': {'group': e}}}
+    if wrap == 'plus-left':
+        return {'binary': {'op': '+', 'left': e, 'right': {'number': 1.0}}}
+    if wrap == 'plus-right':
+        return {'binary': {'op': '+', 'left': {'number': 1.0}, 'right': e}}
+    if wrap == 'eq-null':
+        return {'binary': {'op': '==', 'left': e, 'right': {'variable': 'null'}}}
+    if wrap == 'call-arg':       # (a call: never pointless, whatever its arguments are)
+        return {'function': {'name': 'arrayNew', 'args': [{'number': 1.0}, e]}}
+    return e
+
+
+def lazy_envs(m, salt):
+    """all truth assignments of m control variables as source text; the spelling of true / false rotates"""
+    out = []
+    for bits in range(2 ** m):
+        env = []
+        for j in range(m):
+            pool = LAZY_TRUTHY if (bits >> (m - 1 - j)) & 1 == 0 else LAZY_FALSY
+            env.append(pool[(salt + bits + j) % len(pool)][0])
+        out.append(env)
+    return out
+
+
+def lazy_probe_path(model):
+    for path in statement_paths(model):
+        st = model['statements'][path[0]]
+        for ix in path[1:]:
+            st = st['function']['statements'][ix]
+        if 'expr' in st and st['expr']['expr'].get('function', {}).get('name') == 'lazyProbe':
+            return path, st
+    raise ValueError('no probe statement')
+
+
+def lazy_model(expr, cvars, scope, salt):
+    """The script around the ONE expression statement: the statement runs once per truth assignment of the control variables."""
+    envs = lazy_envs(len(cvars), salt)
+    if scope == 'fn':
+        lines = LAZY_HEAD + ['function probe(%s):' % ', '.join(cvars), '    lazyProbe()', "    systemLog('after')", 'endfunction']
+        lines += ['probe(%s)' % ', '.join(env) for env in envs]
+    else:
+        lines = LAZY_HEAD + ['envs = arrayNew(%s)' % ', '.join('arrayNew(%s)' % ', '.join(env) for env in envs), 'for env in envs:']
+        lines += [f'    {c} = arrayGet(env, {j})' for j, c in enumerate(cvars)]
+        lines += ['    lazyProbe()', "    systemLog('after')", 'endfor']
+    model = fw.impl()['parser'].parse_script('\n'.join(lines) + '\n')
+    path, st = lazy_probe_path(model)
+    st['expr']['expr'] = expr
+    return model, path
+
+
+def lazy_placements(nslots, full):
+    sets = [()] + [(i,) for i in range(nslots)] + ([tuple(range(nslots))] if nslots >= 2 else [])
+    if full:
+        sets = [tuple(i for i in range(nslots) if (bits >> i) & 1) for bits in range(2 ** nslots)]
+    return sets
+
+
+def lazy_cases(rng, full):
+    """(case id, model) of the lint-lazy-operands stream; quick: depth-1 frames x placements x wraps x kinds (scope in turn), depth-2
+    frames x placements (wrap, kind, scope in turn), literal tests; thorough: every subset of the slots, both scopes, every kind."""
+    LAZY_INFO.clear()
+    out = []
+    turn = [0]
+
+    def add(tid, t, calls, wrap, kind, scope, lits=None, litid=''):
+        roles = lazy_slots(t)
+        expr, cvars, _ = lazy_build(t, set(calls), kind, lits)
+        model, path = lazy_model(lazy_wrap(expr, wrap), cvars, scope, turn[0])
+        turn[0] += 1
+        cid = f'lazy:{tid}:{"+".join(map(str, calls)) or "none"}:{wrap}:{kind}:{scope}{litid}'
+        budget = run_budget(model)
+        LAZY_INFO[cid] = {'roles': [roles[i] for i in calls], 'evaluated': not same_run(run_model(model, budget), run_model(without(model, path), budget))}
+        LAZY_INFO[json.dumps(model)] = LAZY_INFO[cid]['evaluated'] or not calls
+        out.append((cid, model))
+
+    for tid, t in lazy_templates(2):
+        nested = '-' in tid
+        nslots = len(lazy_slots(t))
+        for pi, calls in enumerate(lazy_placements(nslots, full and nslots <= 5)):
+            if not nested:
+                for wi, wrap in enumerate(LAZY_WRAPS):
+                    for ki, kind in enumerate(LAZY_KINDS if calls else LAZY_KINDS[:1]):
+                        for scope in (('top', 'fn') if full else (('top', 'fn')[(pi + wi + ki) % 2],)):
+                            add(tid, t, calls, wrap, kind, scope)
+            else:
+                for kind in (LAZY_KINDS if full and calls else [rng.choice(LAZY_KINDS)]):
+                    for scope in (('top', 'fn') if full else (rng.choice(('top', 'fn')),)):
+                        add(tid, t, calls, rng.choice(LAZY_WRAPS), kind, scope)
+    # literal tests / left operands: the truth value of the control position is written into the statement
+    for tid, t in lazy_templates(2 if full else 1):
+        nslots = len(lazy_slots(t))
+        nctl = lazy_build(t, set(), 'script')[2]
+        if nctl == 0:
+            continue
+        if nctl == 1:       # single frames: every spelling of true and false
+            combos = [(f'{truth}{i}', [lit]) for i, (truth, lit) in enumerate(LAZY_LITS)]
+        else:
+            combos = []
+            for bits in range(2 ** nctl):
+                pick = [rng.choice([x for x in LAZY_LITS if x[0] == ('f' if (bits >> j) & 1 else 't')]) for j in range(nctl)]
+                combos.append((''.join(x[0] for x in pick) + str(bits), [x[1] for x in pick]))
+        for litid, lits in combos:
+            for calls in lazy_placements(nslots, False):
+                add(tid, t, calls, rng.choice(LAZY_WRAPS), rng.choice(LAZY_KINDS), rng.choice(('top', 'fn')), lits, ':lit-' + litid)
+    return out
+
+
+def lazy_tags(cid, model):
+    parts = cid.split(':')
+    info = LAZY_INFO.get(cid, {'roles': [], 'evaluated': False})
+    roles = info['roles']
+    at = 'none' if not roles else roles[0] if len(roles) == 1 else 'several'
+    return ['frame:' + parts[1].split('-')[0].split('.')[0] + ('-nested' if '-' in parts[1] else ''), 'call-at:' + at, 'wrap:' + parts[3],
+            'call:' + parts[4], 'scope:' + parts[5], 'tests:' + ('literal' if len(parts) > 6 else 'variable'),
+            'call-evaluated-in-some-pass' if info['evaluated'] else ('no-call' if not roles else 'call-never-evaluated')]
+
+
 def statement_paths(model):
     """Paths of all statements: (i,) top level, (i, j) statement j of the function at i, (i, j, k) one level deeper."""
     out = []
@@ -2413,7 +2646,7 @@ def structured_cases(rng, n):
 def streams(ctx):
     run_cases(ctx, 'lint-corpus', 'hand-picked models (duplicate labels shared between scopes, last-statement jumps, names that '
               'collide with generated labels, re-assigned arguments, non-ASCII names, rest marker without names, flags present and false, '
-              'self-assignments that bind, re-bound library names, twin functions); each also linted with shared nodes; non-trivial = at '
+              'self-assignments that bind, re-bound library names, twin functions, effectful operands of if / && / ||); each also linted with shared nodes; non-trivial = at '
               'least one warning', corpus_models(), reprs=['share-expr', 'share-all'])
 
     rng = ctx.rng('lint-structured')
@@ -2489,6 +2722,26 @@ def streams(ctx):
               'bump (logs and counts), at top level and inside a function: pointless iff the tree holds no call; every reported '
               'statement is deleted and the run compared (semantic oracle); non-trivial = the expression holds a call or a warning is '
               'reported', pointless_shape_cases(ctx.scale(2, 3), 3), semantic_cap=100000)
+
+    rng = ctx.rng('lint-lazy-operands')
+    run_cases(ctx, 'lint-lazy-operands', 'ONE unassigned expression statement built from the LAZY constructs - the built-in if with 0, 1, 2, 3, 4, '
+              '5 operands (operands 3+ are never evaluated), && and ||, each alone and with one of them nested in every operand of another '
+              '(' + str(len(lazy_templates(2))) + ' frames) - x the operand position(s) that hold a call: none, each single position (test, '
+              'true-value, false-value, never-evaluated operand, left, right), all (thorough: every subset) x the call {script function '
+              'that logs, counts and passes its argument through; the same through a function-valued variable; systemLog; systemGlobalSet '
+              '(effect only in the final globals); arrayPush on a global array; an undefined function (effect = the run fails)} x the '
+              'context of the frame {bare, group, !, unary -, either side of +, == null, !(...), argument of a library call} x scope '
+              '{top level, function body}; the statement is EXECUTED UNDER EVERY TRUTH ASSIGNMENT of its call-free tests / left operands '
+              '(spelled true / 1 / \'a\' and false / 0 / \'\' / null in turn): as parameters of the enclosing function called once per '
+              'assignment, or read from a list the enclosing top-level loop walks - so every operand position is the evaluated one in some '
+              'pass; the call-free value operands make a frame truthy exactly when its test / left operand is; also with the truth values '
+              'written into the statement as literals (single frames: every spelling incl. the strings 0 and blank, -1, 0.5, an unset variable; one case per spelling); quick: single frames in the full product of position x '
+              'call x context, nested frames with call / context / scope drawn at random; oracle: every reported statement is deleted and '
+              'the run compared (result, log, final globals) - a call in an operand that no run evaluates MAY be reported, the Lean mirror '
+              '(no statement with a call is reported) is stricter than the property; tag call-evaluated-in-some-pass = deleting the '
+              'statement changes the run, i.e. a wrong warning for it would be a witness; non-trivial = that, or the statement holds no call (and is reported)',
+              lazy_cases(rng, full=not ctx.quick), semantic_cap=1000, extra_tags=lazy_tags,
+              nontrivial_fn=lambda m: bool(LAZY_INFO.get(json.dumps(m))))
 
     sizes = ctx.scale(SCALE_SIZES_QUICK, SCALE_SIZES_THOROUGH)
     run_cases(ctx, 'lint-scale', 'SCALE axis: one count n in {' + ', '.join(map(str, sizes)) + '} is the generated dimension - n unused / '
@@ -2581,7 +2834,7 @@ def streams(ctx):
     run_cases(ctx, 'lint-nested', 'jump-level models in which function bodies may contain function statements (finding F19: lint does '
               'not look inside them); the model mirrors the non-descending behaviour; non-trivial = at least one warning', nested,
               semantic_cap=3)
-    for name in ('lint-shared-nodes', 'lint-noop-lookalikes', 'lint-corpus', 'lint-structured', 'lint-jump', 'lint-nested', 'lint-pointless-shapes', 'lint-flow-sites', 'lint-flow-random', 'lint-names', 'lint-names-random', 'lint-unicode-names', 'lint-scale'):
+    for name in ('lint-shared-nodes', 'lint-noop-lookalikes', 'lint-corpus', 'lint-structured', 'lint-jump', 'lint-nested', 'lint-pointless-shapes', 'lint-flow-sites', 'lint-flow-random', 'lint-names', 'lint-names-random', 'lint-unicode-names', 'lint-scale', 'lint-lazy-operands'):
         ctx.streams[name].exhaustive = False
 
 
@@ -2720,6 +2973,10 @@ def search(ctx):
         if len(ctx.witnesses) >= 5:
             return
         check_model(model, report, stats)
+    for _, model in lazy_cases(rng, full=False):     # a call at every operand position of the lazy constructs, every truth assignment
+        if len(ctx.witnesses) >= 5:
+            return
+        check_model(model, report, stats, semantic_cap=1000)
     parser = fw.impl()['parser']
     for _, model in optional_member_cases() + [(c, parser.parse_script(t)) for c, t in noop_lookalike_cases()]:
         if len(ctx.witnesses) >= 5:
